@@ -606,6 +606,18 @@ def rule_iter_inst(rep, tier):
         w.run(rep, std=std, compiler=comp)
 
 
+def rule_proxy(rep, tier):
+    """operator[], at(), front/back and the iterators hand out xoptional<T&, B&> proxies: a write through one is xoptional's assignment operator.  That it
+    takes over BOTH halves of the source unconditionally (and that the constructors the proxies and temporaries go through carry the flag) is the constructor /
+    assignment rule of the optional property (C04.ctor), decided again here - strictly: a value copied only when the source is present leaves values[i] stale."""
+    from . import c04
+    from ..report import Renamed
+    st = ("a write through an element proxy lands in exactly the pair (values[i], flags[i]): xoptional's constructors and assignment operators take value and flag "
+          "from the source, unconditionally")
+    rep.rule("C11.proxy", st)
+    c04.rule_ctor(Renamed(rep, {"C04.ctor": "C11.proxy", "C04.conv": "C11.proxy"}, {"C11.proxy": st}), tier, strict=True)
+
+
 def rule_flags(rep):
     """the flag storage of xoptional_vector is xdynamic_bitset<std::size_t>: its resize must keep the block buffer, the size and the unused bits in
     step, otherwise flags of elements created by a later resize come back present (decided by C03's rules on that instantiation)"""
@@ -679,6 +691,7 @@ def run(tier):
     rule_eq(rep, d)
     rule_iter(rep, d)
     rule_iter_inst(rep, tier)
+    rule_proxy(rep, tier)
     rule_default_ctor(rep, d)
     rule_init(rep)
     rule_make(rep)
